@@ -522,18 +522,21 @@ impl<'a> Run<'a> {
 			Err(p) => { self.r.violation(format!("diff panicked or input not representable: {p}"), replay("")); return; }
 		};
 		self.r.eval(&format!("P{}|{}", g_mappings(a), g_mappings(b)), d.is_some() && a.size() + b.size() > 0);
-		if emit { self.r.case(stream, format!("CDiff {} {} {}", g_mappings(a), g_mappings(b), gres(d.as_ref().map(g_diff)))); }
+		let gd = gres(d.as_ref().map(g_diff));
+		let mut emit_pair = |r: &mut Report, rr: Option<&Option<MMappings>>| {
+			if emit { r.case(stream, format!("CPair {} {} {} {} {}", g_mappings(a), g_mappings(b), gd, gstr(&a.ns[1]), gopt(rr.map(|x| gres(x.as_ref().map(g_mappings)))))); }
+		};
 		// diff fails exactly when the namespaces differ or a second-namespace name is missing
 		let should = a.ns == b.ns && named(a) && named(b);
 		if d.is_some() != should {
 			self.r.violation(format!("diff returned {} but namespaces equal = {}, all entries named in A = {}, in B = {}", if d.is_some() { "Ok" } else { "Err" }, a.ns == b.ns, named(a), named(b)), replay(""));
 		}
-		let Some(d) = d else { self.r.count("diff_err"); return; };
+		let Some(d) = d else { self.r.count("diff_err"); emit_pair(self.r, None); return; };
 		self.r.count("diff_ok");
 		let nsname = a.ns[1].clone();
-		if a.ns[0] == a.ns[1] { self.r.count("pair_duplicate_namespace_names"); return; }
+		if a.ns[0] == a.ns[1] { self.r.count("pair_duplicate_namespace_names"); emit_pair(self.r, None); return; }
 		let mut desync = vec![];
-		let got = match impl_apply(&d, a, &nsname, &mut desync) { Ok(g) => g, Err(p) => { self.r.violation(format!("apply_to panicked: {p}"), replay(&show_diff(&d))); return; } };
+		let got = match impl_apply(&d, a, &nsname, &mut desync) { Ok(g) => g, Err(p) => { self.r.violation(format!("apply_to panicked: {p}"), replay(&show_diff(&d))); emit_pair(self.r, None); return; } };
 		let ok = got.as_ref().is_some_and(|g| g.equiv(b));
 		if ok { self.r.count("inverse_ok"); } else {
 			let f3 = got.as_ref().is_some_and(|g| g.equiv(&f3_expected(a, b)));
@@ -542,25 +545,26 @@ impl<'a> Run<'a> {
 		}
 		// through the text form
 		let top_changes = match &d.doc { Act::None => false, Act::Edit(x, y) => x != y, _ => true };
-		if top_changes { self.r.count("pair_top_comment_differs_no_text_form"); return; }
+		if top_changes { self.r.count("pair_top_comment_differs_no_text_form"); emit_pair(self.r, None); return; }
 		let txt = print_tinydiff(&d);
-		let Some(bytes) = utf8(&txt) else { return; };
-		let d2 = match self.tmp.read(&bytes) { Ok(x) => x, Err(p) => { self.r.violation(format!("tiny_v2_diff::read_file panicked: {p}"), replay(&format!("text:\n{}", show(&txt)))); return; } };
+		let Some(bytes) = utf8(&txt) else { emit_pair(self.r, None); return; };
+		let d2 = match self.tmp.read(&bytes) { Ok(x) => x, Err(p) => { self.r.violation(format!("tiny_v2_diff::read_file panicked: {p}"), replay(&format!("text:\n{}", show(&txt)))); emit_pair(self.r, None); return; } };
 		let mut nd = norm(&d); nd.doc = Act::None;
 		if d2.as_ref() != Some(&nd) {
 			self.r.violation("reading the printed diff does not give back the diff (up to Edit(a,a) = None, empty = absent)".into(), replay(&format!("diff:\n{}text:\n{}\nread back:\n{}", show_diff(&d), show(&txt), d2.as_ref().map(show_diff).unwrap_or("Err\n".into()))));
+			emit_pair(self.r, None);
 			return;
 		}
 		let d2 = d2.unwrap();
 		let mut desync = vec![];
-		let got2 = match impl_apply(&d2, a, &nsname, &mut desync) { Ok(g) => g, Err(p) => { self.r.violation(format!("apply_to panicked: {p}"), replay(&show_diff(&d2))); return; } };
+		let got2 = match impl_apply(&d2, a, &nsname, &mut desync) { Ok(g) => g, Err(p) => { self.r.violation(format!("apply_to panicked: {p}"), replay(&show_diff(&d2))); emit_pair(self.r, None); return; } };
 		let same = match (&got, &got2) { (Some(x), Some(y)) => x.equiv(y), (None, None) => true, _ => false };
 		if same { self.r.count("text_inverse_ok"); } else if has_empty_comment(a) || has_empty_comment(b) {
 			self.r.count("text_inverse_known_F4"); self.r.known("F4 an empty comment is an absent cell in the .tinydiff text form".into());
 		} else {
 			self.r.violation("applying the diff read back from its text form differs from applying the diff itself".into(), replay(&format!("diff:\n{}text:\n{}\ndirect:\n{}through text:\n{}", show_diff(&d), show(&txt), sh_res(&got), sh_res(&got2))));
 		}
-		if emit { self.r.case(stream, format!("CRoundtrip {} {} {} {}", g_mappings(a), g_mappings(b), gstr(&nsname), gres(got2.as_ref().map(g_mappings)))); }
+		emit_pair(self.r, Some(&got2));
 	}
 
 	/// text -> read_file
@@ -650,7 +654,7 @@ fn one_entry_diff(acts: [Option<Act>; 4], docs: [Act; 5]) -> DDiff {
 
 pub fn run(ctx: &Ctx) -> anyhow::Result<Report> {
 	let mut r = Report::new("C04", "C04.Run");
-	r.shard_size = 250;
+	r.shard_size = 100;
 	let mut rng = Rng::new(ctx.seed);
 	r.rule = "table: every combination of the 4 actions x target entry {absent, present without name, present with the stated old name, present with another name} at class/field/method/parameter level and the 4 actions x comment {absent, stated old value, other value} at mappings/class/field/method/parameter level on a single-entry tree, each also below an added and below a removed parent; pairs: (A,B) derived from a generated two-namespace ancestor by independent random edits (drop, rename, comment change, add at every level) so that only-A / only-B / both-equal / both-different entries occur at every level, with separate streams violating each hypothesis (absent second-namespace names, first-namespace parameter names, empty comments, differing namespaces); arbitrary: random diffs aimed at a generated target (2 and 3 namespaces, every target namespace incl. the first and an unknown one), consistent or with injected faults; text: printed diffs, the repository's four .tinydiff fixtures, and mutations of both. Oracle on the implementation: apply(diff(A,B),A) equivalent to B, also through print/read_file; result of apply_to equals an independent map-based reference and Err exactly when the reference finds an inconsistency; diff is Err exactly when a needed name is absent; read_file(print(d)) = norm(d). Non-trivial: the call returned Ok on a non-empty tree; distinct by the full input.".into();
 	{
@@ -744,11 +748,11 @@ pub fn run(ctx: &Ctx) -> anyhow::Result<Report> {
 	}
 
 	// 2. pairs (A,B)
-	let npairs = if ctx.thorough { 3000 } else { 420 };
+	let npairs = if ctx.thorough { 3000 } else { 300 };
 	let base_cfg = |mc: usize| { let mut g = GenCfg::new(2); g.max_classes = mc; g.absent_12 = 0; g };
 	for i in 0..npairs {
 		let kind = i % 10;
-		let mut g = base_cfg(if i % 3 == 0 { 6 } else { 3 });
+		let mut g = base_cfg(if i % 4 == 0 { 5 } else { 2 });
 		let (stream, ecfg) = match kind {
 			0..=5 => ("pair", EditCfg { drop: 20, rename: 30, doc: 30, add: 35, unname: 0, empty_doc: 0, param_src: 0 }),
 			6 => { g.absent_12 = 2; ("pair-unnamed", EditCfg { drop: 20, rename: 30, doc: 30, add: 35, unname: 60, empty_doc: 0, param_src: 0 }) }
@@ -774,7 +778,7 @@ pub fn run(ctx: &Ctx) -> anyhow::Result<Report> {
 	}
 
 	// 3. arbitrary diffs against arbitrary targets
-	let narb = if ctx.thorough { 4000 } else { 520 };
+	let narb = if ctx.thorough { 4000 } else { 400 };
 	for i in 0..narb {
 		let n = if i % 5 == 4 { 3 } else { 2 };
 		let mut g = GenCfg::new(n); g.max_classes = if i % 4 == 0 { 5 } else { 2 }; g.absent_12 = 3;
@@ -798,7 +802,7 @@ pub fn run(ctx: &Ctx) -> anyhow::Result<Report> {
 			}
 		}
 		// the diffs also travel through the text form
-		if i % 3 == 0 { run.print_case("print", &d); }
+		if i % 4 == 0 { run.print_case("print", &d); }
 	}
 
 	// 4. text: fixtures, printed diffs, mutations
@@ -815,7 +819,7 @@ pub fn run(ctx: &Ctx) -> anyhow::Result<Report> {
 		texts.push(cps_str(t));
 	}
 	for t in texts.clone() { run.read_case("text-fixed", &t, true); }
-	let nmut = if ctx.thorough { 3000 } else { 400 };
+	let nmut = if ctx.thorough { 3000 } else { 300 };
 	for i in 0..nmut {
 		let mut g = GenCfg::new(2); g.max_classes = 2; g.absent_12 = 2;
 		let t = gen_mappings(&mut rng, &g);
